@@ -1137,6 +1137,10 @@ class Connection(ExportImport):
         """Discard all savepoint data."""
         src = self._savepoint_storage
         self._invalidate_creating(src.creating)
+        # ... and the objects created by a flush into the savepoint storage
+        # that failed half way (they are not in src.creating yet), while
+        # their state can still be found there.
+        self._invalidate_creating()
         self._storage = self._normal_storage
         self._savepoint_storage = None
 
